@@ -9,6 +9,7 @@ import random
 import vlib
 from props import pbfcommon as P
 
+LEVEL = "fault_enumeration"
 PREF = {"order", "complete", "err", "outcome"}
 D = lambda n: {"k": "data", "n": n}
 BAD, TYP = {"k": "bad", "n": 0}, {"k": "type", "n": 0}
